@@ -759,6 +759,9 @@ def r6(ctx):
                 if crets and len(crets) == 1 and crets[0][0] == 'field' and crets[0][2] == 'isleaf':
                     pos = True
             ok = pos and src is not None and any(isinstance(x, tuple) and x[:1] == ('field',) and x[2] == 'arena' for x in walk(src))
+        if not ok and name == 'num_nodes':
+            helpers.check_num_nodes(ctx, 'C13.R6', site)      # another spelling (a loop with a counter): decided by case interpretation
+            continue
         if ok:
             ctx.ok('C13.R6', site, 'counts %s' % fmt(rets[0][2][0]), b.span)
         else:
@@ -796,7 +799,16 @@ def r6(ctx):
                                 for op_, x_, y_ in prune.cmp_facts(literals(b, R, dbb)))
                     good = good and it is not None and grows
                 ok = good
-        (ctx.ok if ok else ctx.bad)('C13.R6', 'Tree::depth#values', 'maximum over the depth counters delivered by the depth-first traversal from the root' if ok else
+        if not ok:
+            # another spelling of the running maximum: decided by case interpretation over short traversals with ordered depths
+            wr = helpers.check_depth_loop(ctx, 'C13.R6', 'Tree::depth#values')
+            if wr == []:
+                ok = True
+            elif isinstance(wr, list) and wr:
+                ctx.bad('C13.R6', 'Tree::depth#values', 'depth() is not the largest depth the traversal from the root delivers: %s' % '; '.join(wr)[:200], b.span)
+                ok = None
+        if ok is not None:
+          (ctx.ok if ok else ctx.bad)('C13.R6', 'Tree::depth#values', 'maximum over the depth counters delivered by the depth-first traversal from the root' if ok else
                                     'depth() is not the maximum of the depths the traversal from the root reports (depths recomputed another way are not decided here)', b.span)
     b = ctx.body('C13.R6', 'Tree::depth_stats')
     if b is not None:
